@@ -187,8 +187,8 @@ struct Exact {
             for (int j = 0; j < mper; j++) tab[(size_t)i * mper + j] = pieces[i].eval((LD)j / mper);
         if (n) tab[(size_t)n * mper] = pieces[n - 1].eval(1);
     }
-    LD scale() const {
-        LD s = 1;
+    LD scale(LD floor = 1) const {
+        LD s = floor;
         for (auto& p : tab) {
             if (fabsl(p.x) > s) s = fabsl(p.x);
             if (fabsl(p.y) > s) s = fabsl(p.y);
